@@ -69,6 +69,8 @@ def dispatch (prop mode : String) : Option (List String → String) :=
   | "C07", "model" => some FilteringDriver.model
   | "C07", "spec" => some FilteringDriver.spec
   | "C07", "modelchain" => some FilteringDriver.modelChain
+  | "C06", "modellookup" => some LookupDriver.model
+  | "C06", "speclookup" => some LookupDriver.spec
   | "C07", "modellookup" => some LookupDriver.model
   | "C07", "speclookup" => some LookupDriver.spec
   | "C09", "model" => some NotifyDriver.model
